@@ -2,6 +2,7 @@ import CE.Rules.Machine
 import CE.Rules.Table
 import CE.Rules.Markers
 import CE.Rules.Pending
+import CE.Rules.PendingDistinct
 /-
   C13 — markers and local references are consistent in every accepted document.
 
@@ -20,7 +21,8 @@ import CE.Rules.Pending
   marker identifier is registered twice; `pending_references_never_name_a_registered_marker` - in every
   state the validator reaches on any stream, no waiting (forward) reference names an identifier that is
   already registered (CE/Rules/Pending.lean), so what `endDocument` finds waiting is exactly the set of
-  references whose marker never came.  The type masks over whole documents are
+  references whose marker never came; `known_identifiers_are_partitioned` - registered and waiting
+  identifiers together contain no identifier twice (CE/Rules/PendingDistinct.lean).  The type masks over whole documents are
   `…_partial`: exercised by the WF.REL oracle against the independent grammar's global
   conditions (`Spec.globalOK`) on every run.
 -/
@@ -126,6 +128,22 @@ theorem pending_references_never_name_a_registered_marker (env : Env) (evs : Lis
     (hx : x ∈ (run env RState.init evs 0).2.2.forward.map (·.1)) :
     lookupForward (run env RState.init evs 0).2.2.marked x = none :=
   run_pend env evs RState.init 0 (by intro y hy; simp [RState.init] at hy) x hx
+
+/-- the identifiers the validator knows are partitioned without repetition: registered markers are
+    pairwise distinct, waiting references are pairwise distinct, and no identifier is in both - on any
+    stream, accepted or not -/
+theorem known_identifiers_are_partitioned (env : Env) (evs : List Ev) :
+    let s := (run env RState.init evs 0).2.2
+    (s.marked.map (·.1) ++ s.forward.map (·.1)).Nodup := by
+  intro s
+  refine List.nodup_append.2 ⟨registered_markers_are_distinct env evs,
+    run_fwd env evs RState.init 0 (by simp [FInv, RState.init]), ?_⟩
+  intro a ha b hb hab
+  subst hab
+  have hn := pending_references_never_name_a_registered_marker env evs a hb
+  obtain ⟨p, hp, hpe⟩ := List.mem_map.1 ha
+  simp only [lookupForward, Option.map_eq_none_iff, List.find?_eq_none] at hn
+  exact absurd (hn p hp) (by simp [hpe])
 
 /-- non-vacuity of the above: after a forward reference the table is not empty, and it is empty again
     once the marker has come -/
